@@ -150,7 +150,7 @@ func writeEvidence(prop, tier string, seed int, wall float64, byFn map[string]*m
 	if err != nil {
 		return err
 	}
-	dir := filepath.Join(verifRoot, "evidence")
+	dir := filepath.Join(outRoot, "evidence")
 	os.MkdirAll(dir, 0o755)
 	return os.WriteFile(filepath.Join(dir, prop+".json"), b, 0o644)
 }
